@@ -87,9 +87,9 @@ theorem hLoop_acc {σ : Type} (P : HParams α n) (Kn : HKernel α n) (f : Rhs α
       rw [heq] at hi
       exact ih s' hi r h
 
-theorem startMeter_acc (f : Rhs α n) (x0 : α) (y0 : Vec α n) (posneg : α) (firstStep : Option α)
+theorem startMeter_acc (f : Rhs α n) (x0 : α) (y0 : Vec α n) (posneg hcap : α) (firstStep : Option α)
     (hinit : Rhs α n → Vec α n → α × Array (α × Vec α n)) :
-    (startMeter f x0 y0 posneg firstStep hinit).2.2.cnt.accepted = 0 := by
+    (startMeter f x0 y0 posneg hcap firstStep hinit).2.2.cnt.accepted = 0 := by
   unfold startMeter
   cases firstStep <;> rfl
 
@@ -101,9 +101,9 @@ theorem hSolve_naccpt {σ : Type} (P : HParams α n) (Kn : HKernel α n) (f : Rh
     (h : hSolve P Kn f ob obs0 x0 y0 firstStep hinit fo hl fuel = some r) :
     r.m.cnt.accepted + 1 = r.m.pairs.length := by
   unfold hSolve at h
-  have hp := (startMeter_pairs f x0 y0 P.posneg firstStep hinit).1
-  have ha := startMeter_acc f x0 y0 P.posneg firstStep hinit
-  have h0 : AInv ((startMeter f x0 y0 P.posneg firstStep hinit).2.2.cb x0 x0 y0 #[]) := by
+  have hp := (startMeter_pairs f x0 y0 P.posneg P.hmax firstStep hinit).1
+  have ha := startMeter_acc f x0 y0 P.posneg P.hmax firstStep hinit
+  have h0 : AInv ((startMeter f x0 y0 P.posneg P.hmax firstStep hinit).2.2.cb x0 x0 y0 #[]) := by
     unfold AInv; rw [Meter.pairs_cb, hp]; simp [ha]
   unfold hStart at h
   dsimp only at h
